@@ -260,4 +260,11 @@ def run(ctx: Ctx) -> None:
     for name in want:
         if name not in seen:
             r.viol(f"ToySimulation.{name}|missing", sim.loc(), f"ToySimulation.{name} no longer sets next_cycle")
-    r.floor(3)
+    # "done" is `no instruction loaded`: if anything but the second half (and the loader) unloads the instruction, a program can
+    # become done in the middle of an instruction, and the done early-returns then win over the sequence check
+    for f, st, t in attr_stores(m, "loaded_instruction"):
+        ok = (f.cls is sim and f.name == "second_cycle_step") or (f.cls is not None and f.cls.name == "ToyArchitecturalState" and f.name == "__init__") or \
+             (f.cls is not None and f.cls.name == "ToyParser" and f.name == "_load_instructions")
+        r.check(ok, f"{short(f.qname)}|loaded_instruction", f.loc(st), f"unexpected writer of the instruction register: {short(f.qname)}: `{seg(f, st)}` "
+                "(the program could become done between the two halves of an instruction)")
+    r.floor(5)
